@@ -9,7 +9,7 @@ import Pko.Lemmas.ObjectSet
 import Pko.Props.C03
 
 namespace Pko.Props.C09
-open Pko.Kube Pko.Model.Phase Pko.Model.ObjectSet
+open Pko.Kube Pko.Model.Phase Pko.Model.ObjectSet Pko.Model.Status
 
 /-- A paused owner's phase pass issues no write at all. -/
 theorem paused_phase_no_writes (cfg : Cfg) (ow : Owner) (prev : List Prev) (cls : String)
